@@ -543,6 +543,24 @@ def _is_some_newline(f, op, depth=4):
     return False
 
 
+def _is_len_minus_one(f, st, op, key):
+    """the operand is `buf.len() - 1` for the buffer stored under `key`"""
+    if op.get("k") not in ("copy", "move"):
+        return False
+    for o in F.origins(f, op, depth=8, through_calls=False):
+        if o.kind == "binop" and o.extra in ("Sub", "SubWithOverflow", "SubUnchecked"):
+            l_, r_ = o.place["l"], o.place["r"]
+            if r_.get("k") == "const" and r_.get("int") == 1 and l_.get("k") in ("copy", "move"):
+                for o2 in F.origins(f, l_, depth=6, through_calls=False):
+                    if o2.kind == "call" and re.search(r"^alloc::(vec::Vec|string::String)::len$|slice::<impl \[T\]>::len$", short(o2.call.name)) and \
+                            o2.call.args and o2.call.args[0].get("k") in ("copy", "move") and _skey(f, o2.call.args[0]["pl"], st) == key:
+                        return True
+                    # the length read earlier into a local on this path
+        if o.kind == "call" and re.search(r"usize>::(saturating_sub|wrapping_sub|checked_sub)$", short(o.call.name)):
+            pass
+    return False
+
+
 def _call(f, st, t, bb):
     fn = t["func"]
     name = short(fn.get("res_path") or fn.get("path") or "?")
@@ -618,7 +636,19 @@ def _call(f, st, t, bb):
     if name.endswith("::truncate"):
         k = akey(0)
         if k is not None:
-            st.store[k] = [] if (len(args) > 1 and args[1].get("int") == 0) else TOP
+            if len(args) > 1 and args[1].get("int") == 0:
+                st.store[k] = []
+            elif len(args) > 1 and _is_len_minus_one(f, st, args[1], k):
+                # truncate(len - 1) removes exactly the last byte: the same obligation as pop()
+                v = st.store.get(k, [])
+                if v is not TOP:
+                    content = tuple(a for a in v if a[0] in ("C", "N"))
+                    proven = any(ok and len(kk) > 0 and content[-len(kk):] == kk for kk, ok in st.nl.items())
+                    if not proven:
+                        raise Violation("next|pop-unproven", "a byte is removed from the buffer without a dominating test that it is the newline", bb)
+                    st.store[k] = list(v) + [("-nl",)]
+            else:
+                st.store[k] = TOP
         return
     if NEW_CALLS.search(name):
         if dl is not None:
